@@ -160,6 +160,7 @@ type scn struct {
 	pw      []byte
 	dir     string
 	path    string
+	fileTyp string // Type string of the intact file (independent parse)
 	orig    []byte // the key file as written by the real code
 	ct      []byte // ciphertext stored in it (independent parse)
 	pending []pend
@@ -265,7 +266,7 @@ func (s *scn) judgeFile(fault, where string, damaged []byte, o outcome) string {
 		return "error"
 	case oSame:
 		typ, ct, ok := refParse(damaged)
-		if ok && (typ != s.typ || !bytes.Equal(ct, s.ct)) {
+		if ok && (typ != s.fileTyp || !bytes.Equal(ct, s.ct)) {
 			s.violate(1, "tamper-evidence", "modified-ciphertext-accepted/"+fault, "%s %s: the file's Type/ciphertext changed (type %q, %d ciphertext bytes) but ReadFromFileAndDecrypt returned the key without error", fault, where, typ, len(ct))
 			return "accepted"
 		}
@@ -361,9 +362,11 @@ func runKeyfile(k *kernel.K) {
 		panic("keyfile world: cannot read back scratch file: " + err.Error())
 	}
 	typ, ct, ok := refParse(s.orig)
-	if !ok || typ != s.typ || len(ct) == 0 {
-		k.Violate(prop, "round-trip", "written-file-not-parseable", "the written key file does not parse as {Type,PublicKey,Ciphertext} with Type=%s (parsed ok=%v type=%q, %d ciphertext bytes)", s.typ, ok, typ, len(ct))
+	if !ok || len(ct) == 0 {
+		// not a finding about gossamer: the harness's idea of the file format is out of date => TROUBLE
+		panic(fmt.Sprintf("keyfile world: the reference parser cannot read the key file written by the real code (ok=%v, %d ciphertext bytes): file format changed?", ok, len(ct)))
 	}
+	s.fileTyp = typ // what the intact file says; whether it is the right scheme is decided by the intact round trip
 	s.ct = ct
 
 	s.intact()
@@ -513,7 +516,7 @@ func (s *scn) region(pos int) string {
 		return "ciphertext-value"
 	case in(`"Ciphertext"`):
 		return "ciphertext-name"
-	case in(`"` + s.typ + `"`):
+	case in(`"` + s.fileTyp + `"`):
 		return "type-value"
 	case in(`"Type"`):
 		return "type-name"
@@ -556,7 +559,7 @@ func (s *scn) flips() {
 		res[r]++
 		reg[s.region(t.pos)+":"+r]++
 		if r == "error" {
-			if typ, ct, ok := refParse(d); ok && typ == s.typ && len(ct) >= 12 && !bytes.Equal(ct, s.ct) {
+			if typ, ct, ok := refParse(d); ok && typ == s.fileTyp && len(ct) >= 12 && !bytes.Equal(ct, s.ct) {
 				gcm++ // still a well-formed file with a different ciphertext: rejected by authentication
 			}
 		}
@@ -693,12 +696,12 @@ func (s *scn) rawCiphertext() {
 // ciphertext, so the statement does not cover it: outcomes are only counted.
 func (s *scn) typeSwap() {
 	for _, other := range schemes {
-		if other == s.typ {
+		if other == s.fileTyp {
 			continue
 		}
-		d := bytes.Replace(s.orig, []byte(`"`+s.typ+`"`), []byte(`"`+other+`"`), 1)
+		d := bytes.Replace(s.orig, []byte(`"`+s.fileTyp+`"`), []byte(`"`+other+`"`), 1)
 		o := s.readFile(d, s.pw)
-		name := fmt.Sprintf("type-swap:%s->%s:%s", s.typ, other, []string{"error", "same-key", "key-of-the-other-scheme-returned", "panic"}[o.kind])
+		name := fmt.Sprintf("type-swap:%s->%s:%s", s.fileTyp, other, []string{"error", "same-key", "key-of-the-other-scheme-returned", "panic"}[o.kind])
 		s.k.Probe(name)
 	}
 	s.k.Event("type-swap", "Type field rewritten to the 2 other schemes (counted in probes only)")
